@@ -94,6 +94,25 @@ def uncapped (rate : Dec) : Int → Dec → List (Int × Int) → Bool
     !decide ((Dec.ofInt pool).m < (accrued now last err rate).m) &&
       uncapped rate now (calculateStakingRewards now last err rate (Dec.ofInt pool)).2 bs
 
+/-- the same history with a rate that may change from block to block (params update, or the switch-over
+    copying the upgrade rate): block = `(time, pool balance seen, rate in force in that block)` -/
+def runBlocksR : Int → Dec → List (Int × Int × Dec) → List Int × Int × Dec
+  | last, err, [] => ([], last, err)
+  | last, err, (now, pool, rate) :: bs =>
+    let r := calculateStakingRewards now last err rate (Dec.ofInt pool)
+    let rest := runBlocksR now r.2 bs
+    (r.1 :: rest.1, rest.2.1, rest.2.2)
+
+/-- `Σ_b rate_b · (t_b − t_{b−1})` in mantissa·nanosecond units -/
+def rateTime : Int → List (Int × Int × Dec) → Int
+  | _, [] => 0
+  | last, (now, _, rate) :: bs => rate.m * (now - last) + rateTime now bs
+
+/-- times non-decreasing, rates and pools non-negative -/
+def okBlocksR : Int → List (Int × Int × Dec) → Prop
+  | _, [] => True
+  | t, (now, pool, rate) :: bs => t ≤ now ∧ 0 ≤ pool ∧ 0 ≤ rate.m ∧ okBlocksR now bs
+
 def sumL : List Int → Int
   | [] => 0
   | x :: xs => x + sumL xs
